@@ -16,7 +16,14 @@ a function, so that equivalent shapes translate to the same table (never keyed o
   * `module_constants` / `resolve_constants` — a Name whose only binding is ONE module-level assignment of a literal
                        (tuple / list / string / number) is replaced by the literal.
   * `ifexp_assign`   — `x = a if c else b`  ->  `if c: x = a else: x = b`.
-  * `match_to_if`    — `match s: case <literal|dotted name>: ...` -> if/elif on `==` (other patterns: left alone).
+  * `match_to_if`    — `match s: case <literal|dotted name>: ...` -> if/elif on `==`; `case Cls():` -> `isinstance(s, Cls)`
+                       (other patterns: left alone).
+  * `merge_same_test_ifs` — `if c: A else: B` directly followed by `if c: C else: D` on the same pure attribute path that
+                       A / B do not write -> `if c: A; C else: B; D`.
+  * `sink_into_branches` — tail duplication: `if c: A else: B` followed by `S` -> `if c: A; S else: B; S` for a landmark
+                       statement `S` (and the plain local assignments / logging between the `if` and `S`) — a call that
+                       was duplicated in the two branches and is hoisted behind the if/else reads like the duplicated
+                       code.
 """
 from __future__ import annotations
 
@@ -209,11 +216,18 @@ class _Match(ast.NodeTransformer):
                 default = c.body
                 continue
             alts = p.patterns if isinstance(p, ast.MatchOr) else [p]
-            vals = [_literal_pattern(a) for a in alts]
-            # `case None/True/False` compare by identity: not an `==` chain
-            if any(v is None for v in vals):
-                return node
-            tests = [ast.Compare(left=copy.deepcopy(node.subject), ops=[ast.Eq()], comparators=[v]) for v in vals]
+            tests = []
+            for a in alts:
+                v = _literal_pattern(a)
+                if v is not None:
+                    tests.append(ast.Compare(left=copy.deepcopy(node.subject), ops=[ast.Eq()], comparators=[v]))
+                elif isinstance(a, ast.MatchClass) and not a.patterns and not a.kwd_patterns and _is_path(a.cls):
+                    # `case Cls():` (no sub-patterns, no capture) is by definition `isinstance(<subject>, Cls)`
+                    tests.append(ast.Call(func=ast.Name(id="isinstance", ctx=ast.Load()),
+                                          args=[copy.deepcopy(node.subject), a.cls], keywords=[]))
+                else:
+                    # `case None/True/False` compare by identity: not an `==` chain; captures / sub-patterns: left alone
+                    return node
             branches.append((tests[0] if len(tests) == 1 else ast.BoolOp(op=ast.Or(), values=tests), c.body))
         if not branches:
             return node
@@ -641,3 +655,106 @@ def self_writes(fn) -> set:
                 if isinstance(e, ast.Attribute) and isinstance(e.value, ast.Name) and e.value.id == "self":
                     out.add(e.attr)
     return out
+
+
+# ----------------------------------------------------------------------------------------------- tail duplication
+
+def _blocks_of(node):
+    for field in ("body", "orelse", "finalbody"):
+        blk = getattr(node, field, None)
+        if isinstance(blk, list) and blk and isinstance(blk[0], ast.stmt):
+            yield blk
+            for st in blk:
+                yield from _blocks_of(st)
+    if isinstance(node, ast.Try):
+        for h in node.handlers:
+            yield h.body
+            for st in h.body:
+                yield from _blocks_of(st)
+
+
+def _local_assignment(st) -> bool:
+    """`x = e` / `x: T = e` / `a, b = e` binding plain local names only (or a bare annotation / pass / logging)"""
+    if isinstance(st, ast.Pass) or is_logging(st):
+        return True
+    if isinstance(st, ast.AnnAssign):
+        return isinstance(st.target, ast.Name)
+    if isinstance(st, ast.Assign):
+        return all(isinstance(t, ast.Name) or (isinstance(t, (ast.Tuple, ast.List))
+                                                and all(isinstance(e, ast.Name) for e in t.elts)) for t in st.targets)
+    return False
+
+
+def sink_into_branches(fn, is_landmark):
+    """`if c: A else: B` followed (in the same block) by plain local assignments and then a landmark statement `S`
+    (`is_landmark(stmt)`), where neither branch contains a landmark  ->  `if c: A; ...; S  else: B; ...; S`.
+    Always behaviour-preserving (the continuation of an if/else is the continuation of each of its branches); applied
+    only when the branches contain no `return` / `break` / `continue` (so that what is appended is reached exactly when
+    the branch falls through) and only across statements that bind local names."""
+    def has_landmark(stmts):
+        return any(isinstance(n, ast.stmt) and is_landmark(n) for st in stmts for n in ast.walk(st))
+
+    changed = True
+    rounds = 0
+    while changed and rounds < 4:
+        changed, rounds = False, rounds + 1
+        for blk in list(_blocks_of(fn)):
+            for i, node in enumerate(blk):
+                if not (isinstance(node, ast.If) and node.orelse):
+                    continue
+                if has_landmark(node.body) or has_landmark(node.orelse):
+                    continue
+                if any(isinstance(n, (ast.Return, ast.Break, ast.Continue, ast.FunctionDef, ast.Lambda, ast.ClassDef))
+                       for n in ast.walk(node)):
+                    continue
+                j = i + 1
+                while j < len(blk) and _local_assignment(blk[j]) and not is_landmark(blk[j]):
+                    j += 1
+                if j >= len(blk) or not is_landmark(blk[j]):
+                    continue
+                moved = blk[i + 1:j + 1]
+                node.body = node.body + copy.deepcopy(moved)
+                node.orelse = node.orelse + moved
+                del blk[i + 1:j + 1]
+                changed = True
+                break
+            if changed:
+                break
+    ast.fix_missing_locations(fn)
+    return fn
+
+
+# ----------------------------------------------------------------------------------------------- adjacent ifs, same test
+
+def merge_same_test_ifs(fn, written_by_callees: set = frozenset()):
+    """`if c: A else: B` directly followed by `if c: C else: D` (same side-effect-free attribute path `c`; either `else`
+    may be missing) -> `if c: A; C else: B; D`, when nothing in A / B stores a name or attribute on the path of `c` (nor,
+    for `self.<attr>`, does a method the function calls write that attribute) and A / B contain no return / break /
+    continue: the second test then evaluates like the first."""
+    changed, rounds = True, 0
+    while changed and rounds < 6:
+        changed, rounds = False, rounds + 1
+        for blk in list(_blocks_of(fn)):
+            for i in range(len(blk) - 1):
+                a, b = blk[i], blk[i + 1]
+                if not (isinstance(a, ast.If) and isinstance(b, ast.If) and _is_path(a.test)
+                        and ast.unparse(a.test) == ast.unparse(b.test)):
+                    continue
+                if any(isinstance(n, (ast.Return, ast.Break, ast.Continue, ast.FunctionDef, ast.Lambda, ast.ClassDef,
+                                      ast.Global, ast.Nonlocal, ast.NamedExpr)) for n in ast.walk(a)):
+                    continue
+                pre = _path_prefixes(a.test)
+                stored = _stored_paths(ast.Module(body=a.body + a.orelse, type_ignores=[]))
+                if any(p in stored for p in pre):
+                    continue
+                if pre[-1] == "self" and len(pre) >= 2 and pre[-2].split(".", 1)[1] in written_by_callees:
+                    continue
+                a.body = a.body + b.body
+                a.orelse = a.orelse + b.orelse
+                del blk[i + 1]
+                changed = True
+                break
+            if changed:
+                break
+    ast.fix_missing_locations(fn)
+    return fn
